@@ -10,6 +10,7 @@ import (
 	"context"
 	"fmt"
 	"io"
+	"sort"
 	"strings"
 
 	netty "github.com/go-netty/go-netty"
@@ -175,10 +176,10 @@ func (w *Writer) Run(ch netty.Channel, ctx context.Context) {
 		if t != nil {
 			b0 = t.Blocked
 		}
-		c.Begin = vsched.X.Steps()
+		c.Begin = Stamp("begin")
 		n, err := Do(ch, c.EP, ctx, mock.Payload(c.ID, c.Size))
 		c.N, c.Err = n, err
-		c.End = vsched.X.Steps()
+		c.End = Stamp("end")
 		if t != nil {
 			c.Blocked = t.Blocked - b0
 		}
@@ -265,4 +266,29 @@ func FirstClose(t *mock.Transport) int {
 		}
 	}
 	return -1
+}
+
+var stampRef vsched.Ref
+
+// Stamp is a scheduler-visible marker on one global object: it totally orders
+// call begin/end events of different threads (and makes that order part of the
+// happens-before state, so state caching cannot merge executions that differ in
+// it). Returns the logical step.
+func Stamp(what string) int {
+	vsched.Op("stamp "+what, stampRef.Get("stamp", nil), vsched.RD|vsched.WR, nil)
+	return vsched.X.Steps()
+}
+
+// SortedCalls returns the calls in id order (oracles must not depend on map order).
+func SortedCalls(m map[int]*Call) []*Call {
+	ids := make([]int, 0, len(m))
+	for id := range m {
+		ids = append(ids, id)
+	}
+	sort.Ints(ids)
+	out := make([]*Call, 0, len(ids))
+	for _, id := range ids {
+		out = append(out, m[id])
+	}
+	return out
 }
